@@ -967,6 +967,11 @@ RAISE_EXCS = ["RuntimeError('C10 injected failure')", "ValueError('C10 injected 
               "PermissionError('C10 message only')", "FileNotFoundError(2, 'C10 with errno', 'c10file')",
               "OSError(28, 'C10 no space left')", "NotADirectoryError()", "TimeoutError('C10')", "AssertionError()",
               "Exception()", "SystemExit(3)", "SystemExit('C10 text status')"]
+# open finding C10-script-exit-code-multiple-of-256: exit(256) in a script is a failure (truthy code: ScriptExitError) whose
+# code the driver hands to sys.exit unchanged - the process status is 256 mod 256 = 0.  Class: the exception is a script exit
+# with a non-zero multiple of 256 AND the status is 0; probed by the exit-status law only
+EXIT256_CLASS = 'script-exit-code-multiple-of-256'
+EXIT256_EXCS = ["SystemExit(256)", "SystemExit(512)"]
 
 
 def exit_law_one(exc):
@@ -1023,7 +1028,7 @@ def stage_w_exit(rep, rng, n):
     others = [RuntimeError, ValueError, TypeError, KeyError, AttributeError, NameError, IndexError, AssertionError,
               ZeroDivisionError, Exception, EnvVersionError, UnicodeError, NotImplementedError, StopIteration]
     cases = []
-    for code in [1, 2, 3, 127, 255, 'text', 'x']:
+    for code in [1, 2, 3, 127, 255, 256, 512, 'text', 'x']:
         cases.append(([0, [0, code] if isinstance(code, int) else [1, True]], bbuild.ScriptExitError('build.bfg', code)))
     for _ in range(n):
         k = rng.random()
@@ -1055,7 +1060,9 @@ def stage_w_exit(rep, rng, n):
                             '(handle_reload_exception returns %r): make takes the failed regeneration step for a success'
                             % (type(e).__name__, ', '.join(repr(a) for a in e.args), r),
                             {'kind': 'handler-status', 'exception': type(e).__name__, 'args': [repr(a) for a in e.args],
-                             'returned': repr(r)}):
+                             'returned': repr(r)},
+                            classes=(EXIT256_CLASS,) if (arg[0] == 0 and isinstance(r, int) and r != 0 and r % 256 == 0
+                                                         and r == getattr(e, 'code', None)) else ()):
                     bad += 1
     finally:
         logging.disable(logging.NOTSET)
@@ -1117,7 +1124,7 @@ def stage_script_raise(rep, rng, thorough):
                       'edit': edit, 'runner': runner, 'backend': 'make', 'script_raise': 'env', 'envfail': mode,
                       'cxx': mode == 'cxx-broken' or rng.random() < 0.3, 'tc': mode.startswith('tc-') or rng.random() < 0.2,
                       'followup': followup})
-    excs = RAISE_EXCS if thorough else RAISE_EXCS[:1] + rng.sample(RAISE_EXCS[1:], 7)
+    excs = (RAISE_EXCS if thorough else RAISE_EXCS[:1] + rng.sample(RAISE_EXCS[1:], 7)) + [rng.choice(EXIT256_EXCS)]
     bad, dis = 0, []
     with concurrent.futures.ProcessPoolExecutor(max_workers=14) as ex:
         law = [ex.submit(exit_law_one, e) for e in excs]
@@ -1136,7 +1143,8 @@ def stage_script_raise(rep, rng, thorough):
                 if rep.fail('exit status: `bfg9000 %s` of a project whose %s raises %s exits 0 (a failed %s must be visible to '
                             'whoever started it: make touches the stamp / keeps the old build file and never retries)'
                             % (cmd, place, e, 'configure' if cmd == 'configure' else 'regeneration'),
-                            {'kind': 'exit-status', 'exc': e, 'place': place, 'command': cmd, 'rc': rc, 'output': out}):
+                            {'kind': 'exit-status', 'exc': e, 'place': place, 'command': cmd, 'rc': rc, 'output': out},
+                            classes=(EXIT256_CLASS,) if e in EXIT256_EXCS and 'failed with exit status %s' % e[11:-1] in out else ()):
                     bad += 1
     rep.stage('oracle:exit_status', runs=nlaw, exception_classes=len(excs))
     for spec, o in zip(specs, outs):
